@@ -266,6 +266,10 @@ func c14Timestamp(p *ana.Prog, r *ana.Result) {
 	if enc == nil || dec == nil {
 		return
 	}
+	if c18BitPacking(p, r, enc, dec) {
+		return
+	}
+	// structural fallback
 	// encoder: stores into the Seconds array elements: element i <- uint8(uint64(s) >> sh)
 	encSh := map[int64]int64{}
 	ana.Instrs(enc, func(in ssa.Instruction) {
